@@ -418,10 +418,10 @@ theorem indexerL_emb (c : ECfg) (r : Obj) (vs : VL) : Emb emb (indexerL c Lim.of
 
 theorem memberVL_emb (c : ECfg) (name : Name) (x : Value) : Emb id (memberVL c Lim.off name x) (Eval.memberV name x) := by
   unfold memberVL
-  rw [withConv_off (measure_off _)]
   cases Eval.memberV name x with
-  | ok v => simp only [liftR, ok_bind, measure_off]; rfl
-  | error e => rfl
+  | ok v => simp only [withConv, measure_off, ok_bind, pure_eq]; rfl
+  | error e =>
+    cases e <;> simp only [withConv, isResolution, measure_off, ok_bind, error_bind] <;> rfl
 
 theorem memberOfL_emb (c : ECfg) (r : Obj) (name : Name) : Emb emb (memberOfL c Lim.off (emb r) name) (Eval.memberOf r name) := by
   have iter : ∀ r : Obj,
@@ -430,14 +430,16 @@ theorem memberOfL_emb (c : ECfg) (r : Obj) (name : Name) : Emb emb (memberOfL c 
           let (items, err) ← bindIter c Lim.off (emb r)
           let s ← EvalLimits.mapL (memberVL c Lim.off name) items err
           pure (ObjL.lazy s.1 s.2)
-        | none => .error (.base .unknownFunction))
+        | none => do
+          EvalLimits.measure Lim.off (objSz c (emb r))
+          .error (.base .unknownFunction))
       (match Eval.toIter r with
         | some (items, err) => do let s ← Eval.mapL (Eval.memberV name) items err; pure (.lazy s.1 s.2)
         | none => .error .unknownFunction) := by
     intro r
     rw [toIterL_emb]
     cases h : Eval.toIter r with
-    | none => rfl
+    | none => simp only [Option.map_none, measure_off, ok_bind]; rfl
     | some s =>
       obtain ⟨xs, e⟩ := s
       simp only [Option.map_some]
